@@ -1,5 +1,6 @@
 (* Property C09 — STREAMINFO and SEEKTABLE written at finalize describe the stream truthfully. *)
-From FlacWriters Require Import Writers Lists_proofs Params_proofs Writers_proofs New_proofs Finalize_proofs C09_proofs.
+From FlacWriters Require Import Writers Lists_proofs Params_proofs Writers_proofs New_proofs Finalize_proofs Cases
+     Encoder_proofs Seek_proofs Finish_proofs C09_proofs Run_proofs.
 Open Scope N_scope.
 
 (* Layout: in each of the three cases (placeholder table refilled, table carved out of the
@@ -32,3 +33,107 @@ Proof. intros. eapply channel_layout; eauto. Qed.
 Theorem C09_layout_cases : forall cap blocks sel blocks',
   finalize_seektable_gen cap blocks sel = Ok blocks' -> meta_len blocks' = meta_len blocks.
 Proof. intros. rewrite !meta_len_blocks_len. f_equal. eapply finalize_seektable_keeps_length; eauto. Qed.
+
+(* STREAMINFO and SEEKTABLE of a successful FlacSampleWriter run, in terms of the samples written.
+   `counters_fit`: the true totals (PCM frames, bytes) fit the u64 counters (a release build would
+   otherwise wrap; a debug build panics on the overflow).  `fs_min`/`fs_max` are the extrema of
+   the frame lengths that fit the 24-bit fields; `md5_of` the little-endian bytes update_md5 feeds.
+   Every frame has block_size PCM frames except a shorter last one; the total is their sum; the
+   digest is that of the bytes of exactly the whole PCM frames; every defined seek point is the
+   candidate (first sample, byte offset, length) of an emitted frame, the table is contiguous
+   (defined points strictly ascending, placeholders last), and generate_seektable on the frames
+   selects the same points (identical table when it was carved out of the padding; same defined
+   points, up to the placeholder table's length, when a total was declared). *)
+Theorem C09_sample :
+  forall enc_block md5 p prefix o rate bps ch total w chunks f,
+    (forall l, length (md5 l) = 16%nat) ->
+    options_wf o -> sample_new p prefix o rate bps ch total = Ok w ->
+    sample_run enc_block md5 p w chunks = Ok f -> counters_fit (f_enc f) ->
+    let all := concat chunks in
+    let bs := o_block_size o in
+    let bytes := bytes_per_sample_of bps in
+    exists cs r,
+      drain (N.to_nat (ch * bs)) all = (cs, r) /\
+      let tail := N.of_nat (length r) / ch in
+      let whole := firstn (N.to_nat (ch * tail)) r in
+      let frames := frames_info (f_enc f) in
+      map fst frames = repeat bs (length cs) ++ (if 1 <=? tail then [tail] else []) /\ tail < bs /\
+      si_total (f_si f) = Some (bs * N.of_nat (length cs) + tail) /\
+      si_rate (f_si f) = rate /\ si_channels (f_si f) = ch /\ si_bps (f_si f) = bps /\
+      si_min_bs (f_si f) = bs /\ si_max_bs (f_si f) = bs /\
+      si_min_fs (f_si f) = fs_min (map snd frames) /\ si_max_fs (f_si f) = fs_max (map snd frames) /\
+      si_md5 (f_si f) = Some (md5 (md5_of bytes (concat cs ++ (if 1 <=? tail then whole else [])))) /\
+      (forall iv pts, o_seektable_interval o = Some iv -> first_seektable (f_blocks f) = Some pts ->
+         is_contiguous pts = true /\
+         (forall s b m, In (Defined s b m) pts ->
+            In {| sp_sample := s; sp_byte := Some b; sp_frames := m |} (frame_seekpoints 0 0 frames)) /\
+         exists sel regenerated,
+           generate_seektable p rate frames iv = Ok regenerated /\
+           defined_points regenerated = take_n (map to_mpoint sel) MAX_POINTS /\
+           match first_seektable (e_blocks (sw_enc w)) with
+           | None => pts = regenerated
+           | Some old => defined_points pts = take_n (map to_mpoint sel) (N.of_nat (length old))
+           end).
+Proof. intros. eapply sample_c09; eauto. Qed.
+
+(* the same at the level of the Encoder, for any front-end: finalize on an encoder satisfying the
+   bookkeeping invariant *)
+Theorem C09_streaminfo : forall md5 p e f,
+  (forall l, length (md5 l) = 16%nat) ->
+  enc_inv e -> enc_static e -> frames_nonempty e -> encoder_finalize md5 p e = Ok f ->
+  si_total (f_si f) = Some (true_samples e) /\
+  si_min_fs (f_si f) = fs_min (map snd (frames_info e)) /\
+  si_max_fs (f_si f) = fs_max (map snd (frames_info e)) /\
+  si_md5 (f_si f) = Some (md5 (md5_input e)) /\
+  si_rate (f_si f) = si_rate (e_si e) /\ si_channels (f_si f) = si_channels (e_si e) /\
+  si_bps (f_si f) = si_bps (e_si e) /\ si_min_bs (f_si f) = si_min_bs (e_si e) /\
+  si_max_bs (f_si f) = si_max_bs (e_si e) /\ 1 <= true_samples e < MAX_SAMPLES.
+Proof. intros. eapply finalize_streaminfo; eauto. Qed.
+
+Theorem C09_points : forall md5 p e f iv pts,
+  (forall l, length (md5 l) = 16%nat) ->
+  enc_inv e -> enc_static e -> frames_nonempty e -> e_interval e = Some iv ->
+  encoder_finalize md5 p e = Ok f -> first_seektable (f_blocks f) = Some pts ->
+  is_contiguous pts = true /\
+  (forall s b m, In (Defined s b m) pts ->
+     In {| sp_sample := s; sp_byte := Some b; sp_frames := m |} (frame_seekpoints 0 0 (frames_info e))) /\
+  exists sel regenerated,
+    generate_seektable p (si_rate (e_si e)) (frames_info e) iv = Ok regenerated /\
+    defined_points regenerated = take_n (map to_mpoint sel) MAX_POINTS /\
+    match first_seektable (e_blocks e) with
+    | None => pts = regenerated
+    | Some old => defined_points pts = take_n (map to_mpoint sel) (N.of_nat (length old))
+    end.
+Proof. intros. eapply finalize_points; eauto. Qed.
+
+(* the extrema really are extrema *)
+Theorem C09_frame_size_extrema : forall lens,
+  match fs_min lens with
+  | None => Forall (fun s => qualifies s = false) lens
+  | Some m => In m lens /\ qualifies m = true /\ forall s, In s lens -> qualifies s = true -> m <= s
+  end /\
+  match fs_max lens with
+  | None => Forall (fun s => qualifies s = false) lens
+  | Some m => In m lens /\ qualifies m = true /\ forall s, In s lens -> qualifies s = true -> s <= m
+  end.
+Proof.
+  intros lens. split.
+  - unfold fs_min. pose proof (fold_min_spec lens None) as H. destruct (fold_left _ lens None).
+    + destruct H as ([H|[H1 H2]] & _ & H3); [discriminate|auto].
+    + tauto.
+  - unfold fs_max. pose proof (fold_max_spec lens None) as H. destruct (fold_left _ lens None).
+    + destruct H as ([H|[H1 H2]] & _ & H3); [discriminate|auto].
+    + tauto.
+Qed.
+
+(* non-vacuity: a concrete run (2 channels, 16 bits, block size 16, 40 PCM frames, seek point
+   every frame, no declared total) finishes, and its STREAMINFO total is 40 *)
+Example C09_nonvacuous :
+  exists f, sample_run Cases.dummy_enc Cases.dummy_md5 Release
+              (match sample_new Release [7; 7; 7]
+                       (options_seektable_frames (match options_block_size options_default 16 with Ok o => o | _ => options_default end) 1)
+                       44100 16 2 None with Ok w => w | _ => {| sw_enc := {| e_prefix := []; e_meta := []; e_frames_rev := []; e_interval := None; e_blocks := []; e_si := {| si_min_bs := 0; si_max_bs := 0; si_min_fs := None; si_max_fs := None; si_rate := 0; si_channels := 0; si_bps := 0; si_total := None; si_md5 := None |}; e_frame_number := 0; e_samples_written := 0; e_seekpoints_rev := []; e_count := 0; e_md5_rev := []; e_emitted_rev := [] |}; sw_buf := []; sw_channels := 0; sw_frame_sample_size := 0; sw_bytes_per_sample := 0 |} end)
+              [repeat 1%Z 50; repeat 2%Z 30] = Ok f /\
+           si_total (f_si f) = Some 40 /\
+           (exists pts, first_seektable (f_blocks f) = Some pts /\ length pts = 3%nat).
+Proof. vm_compute. eexists. split; [reflexivity|]. split; [reflexivity|]. eexists. split; reflexivity. Qed.
